@@ -114,7 +114,17 @@ def enumerate_paths(crate, body, markers=None, max_paths=4096, atom_calls=None):
                     atom = (kind, (dsc(a), dsc(b)))
                 env[d] = ("atom", atom, neg)
             elif rv["rk"] == "discr":
-                env[d] = ("discr", describe(crate, body, {"k": "copy", "pl": rv["pl"]}))
+                src_v = env.get(rv["pl"]["l"], ("unk",)) if rv["pl"]["p"] in ([], ["*"]) else ("unk",)
+                if src_v[0] == "variant":
+                    env[d] = ("const", src_v[2])          # the variant was built on this very path
+                else:
+                    env[d] = ("discr", describe(crate, body, {"k": "copy", "pl": rv["pl"]}))
+            elif rv["rk"] == "agg" and rv.get("ak") == "adt" and "vidx" in rv:
+                # an enum value built on this path (`ChangeKind::Unchanged`, `Turn::from(..)`'s arms): remembered, so that a later
+                # match on it, or a derived `==` against another such value, is decided instead of explored both ways
+                env[d] = ("variant", rv.get("adt"), int(rv["vidx"]), not rv.get("ops"))
+            elif rv["rk"] == "ref" and rv["pl"]["p"] in ([], ["*"]) and env.get(rv["pl"]["l"], ("unk",))[0] == "variant":
+                env[d] = env[rv["pl"]["l"]]
             else:
                 env[d] = ("unk",)
         t = blk["term"]
@@ -132,7 +142,14 @@ def enumerate_paths(crate, body, markers=None, max_paths=4096, atom_calls=None):
                 marks2 = marks + [name]
             d = t["dest"]["l"]
             if not t["dest"]["p"]:
-                if decl in ("std::cmp::PartialEq::eq", "std::cmp::PartialEq::ne") and len(t["args"]) == 2:
+                va = [env.get(flow.operand_local(a), ("unk",)) if a.get("k") != "const" and not a["pl"]["p"] else ("unk",) for a in t["args"][:2]]
+                if decl in ("std::cmp::PartialEq::eq", "std::cmp::PartialEq::ne") and len(t["args"]) == 2 and \
+                        va[0][0] == "variant" and va[1][0] == "variant" and va[0][1] == va[1][1] and va[0][3] and va[1][3] and \
+                        name.startswith("<%s as " % va[0][1]) and "{closure" not in name and _derived_eq(crate, name):
+                    # derived equality of two field-less variants known on this path
+                    same = va[0][2] == va[1][2]
+                    env[d] = ("const", 1 if same != decl.endswith("::ne") else 0)
+                elif decl in ("std::cmp::PartialEq::eq", "std::cmp::PartialEq::ne") and len(t["args"]) == 2:
                     atom = ("eq", frozenset([dsc(t["args"][0]), dsc(t["args"][1])]))
                     env[d] = ("atom", atom, decl.endswith("::ne"))
                 elif body.locals[d] == "bool":
@@ -201,6 +218,21 @@ def enumerate_paths(crate, body, markers=None, max_paths=4096, atom_calls=None):
 
     step(0, {}, {}, [], frozenset())
     return paths
+
+
+def _derived_eq(crate, impl_fn):
+    """Is `<T as PartialEq>::eq` the derived one (compares discriminants and fields)? The driver marks derive output."""
+    b = crate.bodies.get(impl_fn)
+    if b is None:
+        return False
+    return bool(b.def_mac) or "derive" in str(b.d.get("attrs", "")) or b.d.get("from_derive") is True or _looks_derived_eq(b)
+
+
+def _looks_derived_eq(b):
+    # a derived eq on a field-less enum: reads both discriminants and compares them, nothing else
+    calls = [e for e in b.events if e.bb in b.live]
+    discr = [1 for bb, j, s in b.all_assigns() if s["rv"]["rk"] == "discr"]
+    return len(discr) >= 2 and all("discriminant_value" in e.name or "PartialEq" in e.name for e in calls)
 
 
 def atoms_true_when(paths, selector):
